@@ -19,7 +19,7 @@ def cargo_test(args):
     failed = sorted(set(re.findall(r"^test (\S+) \.\.\. FAILED", out, re.M)))
     npass = sum(int(x) for x in re.findall(r"test result: \w+\. (\d+) passed", out))
     return r.returncode, npass, failed, out
-sh(["git", "checkout", "--", "."]); sh(["git", "clean", "-fdq", "-e", "_seed", "-e", "target"])
+sh(["git", "reset", "-q", "--hard", "HEAD"]); sh(["git", "clean", "-fdq", "-e", "_seed", "-e", "target"])
 assert sh(["git", "apply", f"{S}/demo.diff"]).returncode == 0, "demo.diff does not apply"
 rc0, np0, f0, o0 = cargo_test(demo)
 print("demo without patch:", rc0, np0, f0)
